@@ -42,7 +42,8 @@ CONSTANTS TxDefs,     \* tx id -> [ins: Seq(outpoint id), keys: Seq(key id), out
           WithWorker, \* TRUE: WorkerSelect / AsyncRemove enabled
           MaxOps,     \* bound on the number of steps
           MaxHeads,   \* bound on the number of head changes
-          KeepHist    \* TRUE: hist is the whole behaviour (emission); FALSE: only the last record (long traces)
+          KeepHist,   \* TRUE: hist is the whole behaviour (emission); FALSE: only the last record (long traces)
+          InactiveRefusedAtOnce  \* TRUE: the code as it is since fix 20862e4b; FALSE: the pre-fix code (lead configuration only)
 
 TxIds  == DOMAIN TxDefs
 Blocks == DOMAIN BlockDefs
@@ -167,13 +168,16 @@ Init ==
 
 \* TxPool.addTxs -> addQiTxs for the Qi transactions ts of one call (AddRemotes / AddLocals), under pool.mu:
 \*  1. addTxs looks every transaction up with qiPool.Get: a known one is answered ErrAlreadyKnown and its recency
-\*     is refreshed;  2. addQiTxs validates the others in order;  3. it adds the accepted ones in order.
-\* Error accounting as the code does it: addQiTxs returns one error per REFUSED transaction and, in addition, one
-\* per transaction with an output to a zone that is not active (that error does not stop the admission), and
-\* nothing for an accepted one; addTxs writes them into the free result slots in order.  More errors than free
-\* slots: addTxs indexes past the end of its result slice and panics (after the accepted ones were pooled;
-\* pool.mu is released by the defer).  For a single transaction: "inactive" = pooled although an error is
-\* reported; refused and inactive = panic.
+\*     is refreshed;  2. addQiTxs goes through the others in order: a transaction with an output to a zone that is
+\*     not active is refused at once ("inactive", before any input is looked at), the rest is validated;  3. it adds
+\*     the accepted ones in order.  addQiTxs returns one error per refused transaction and nothing for an accepted
+\*     one; addTxs writes the errors into the free result slots in order (so in a call with several transactions an
+\*     error can sit in the slot of another transaction - outside C19's text, not modelled: "batch").
+\* InactiveRefusedAtOnce = FALSE keeps the code as it was before fix 20862e4b (spec-drift guard,
+\* MCQiPool_leadpanic.cfg): the inactive-zone error was appended WITHOUT `continue` - the transaction went on to
+\* the validation and, if valid, into the pool ("inactive" = pooled although an error is reported); a refused one
+\* yielded TWO errors for ONE result slot, addTxs indexed past the end of its result slice and panicked (after
+\* the accepted ones were pooled; in general: more errors than free slots).
 RECURSIVE BumpAll(_, _)
 BumpAll(p, ts) == IF ts = <<>> THEN p ELSE BumpAll((IF InPool(p, Head(ts)) THEN Bump(p, Head(ts)) ELSE p), Tail(ts))
 RECURSIVE AddAll(_, _)
@@ -183,18 +187,20 @@ AddAll(s, ts) == IF ts = <<>> THEN s
                           fs == FeeSent(s[2], s[3], t, Fee(t))
                       IN AddAll(<<LruAdd(s[1], [tx |-> t, fee |-> Fee(t)]), fs[1], fs[2]>>, Tail(ts))
 
+Admit(t, live, h) == IF InactiveRefusedAtOnce /\ HasInactiveOut(t) THEN "inactive" ELSE Validate(t, live, h)
+
 AddOutcome(p, c, q, ts, live, h) ==
     LET known == SelectSeq(ts, LAMBDA t : InPool(p, t))
         fresh == SelectSeq(ts, LAMBDA t : ~InPool(p, t))
-        v     == [t \in ToSet(fresh) |-> Validate(t, live, h)]
+        v     == [t \in ToSet(fresh) |-> Admit(t, live, h)]
         acc   == SelectSeq(fresh, LAMBDA t : v[t] = "ok")
-        nerr  == Cardinality({i \in 1..Len(fresh) : HasInactiveOut(fresh[i])})
-                 + Cardinality({i \in 1..Len(fresh) : v[fresh[i]] # "ok"})
+        nerr  == Cardinality({i \in 1..Len(fresh) : v[fresh[i]] # "ok"})
+                 + (IF InactiveRefusedAtOnce THEN 0 ELSE Cardinality({i \in 1..Len(fresh) : HasInactiveOut(fresh[i])}))
         s     == AddAll(<<BumpAll(p, known), c, q>>, acc)
-        res   == IF nerr > Len(fresh) THEN "panic"
+        res   == IF nerr > Len(fresh) THEN "panic"                       \* pre-fix code only
                  ELSE IF Len(ts) # 1 THEN "batch"
                  ELSE IF known # <<>> THEN "known"
-                 ELSE IF HasInactiveOut(ts[1]) THEN "inactive"
+                 ELSE IF ~InactiveRefusedAtOnce /\ HasInactiveOut(ts[1]) THEN "inactive"
                  ELSE v[ts[1]]
     IN [pool |-> s[1], cache |-> s[2], q |-> s[3], acc |-> ToSet(acc), res |-> res]
 
@@ -202,6 +208,7 @@ AddCall(ts) ==
     /\ step < MaxOps
     /\ UNCHANGED <<chainHead, evHead, evq, resetReq, pendingRm, lastSel, nheads>>
     /\ LET o == AddOutcome(pool, feeCache, feeQ, ts, LiveAt(chainHead), Num(chainHead)) IN
+       /\ Assert(InactiveRefusedAtOnce => o.res # "panic", "a call of the pool's interface panics in the model of the current code")
        /\ pool' = o.pool /\ feeCache' = o.cache /\ feeQ' = o.q
        /\ everValid' = everValid \cup o.acc
        /\ Log([op |-> "add", tx |-> ts[1], txs |-> ts], o.res)
@@ -404,8 +411,10 @@ SelectionValid(sel, head) ==
     /\ \A i, j \in 1..Len(sel) : i # j => Ins(sel[i]) \cap Ins(sel[j]) = {}
 AssembledBlockNeverDoubleSpends == SelectionValid(lastSel.sel, lastSel.head)
 
-\* NOT properties of the code (lead configurations: TLC must find the counterexamples)
+\* no call of the pool's interface panics: holds since fix 20862e4b; MCQiPool_leadpanic.cfg (InactiveRefusedAtOnce =
+\* FALSE) must still make TLC find the counterexample in the model of the pre-fix code
 NoPanic == obs # "panic"
+\* NOT properties of the code (lead configurations: TLC must find the counterexamples)
 NoTwoPooledTxsConflict == \A i, j \in 1..Len(pool) : i # j => Ins(pool[i].tx) \cap Ins(pool[j].tx) = {}
 PoolTxsSpendable == \A i \in 1..Len(pool) : Ins(pool[i].tx) \subseteq LiveAt(chainHead)
 
